@@ -5,6 +5,7 @@ import itertools
 import os
 import random
 import shutil
+import sys
 import tempfile
 import time
 import zipfile
@@ -79,6 +80,23 @@ Proof.
   split; [reflexivity|]. destruct Hb as [<-|[<-|[<-|[]]]]; (split; [vm_compute; reflexivity|]); (split; [vm_compute; reflexivity|]); split; assumption.
 Qed.
 Print Assumptions today_chain_walk_lookup_closed.
+(* ... and every entry today's walk_folder / iter lists is the specification's answer for the listed name (chain_spec is
+   written from the property text; that every lookup form equals it is the other instance theorem) *)
+Definition gen_kmember0 (m : kmember) : Prop :=
+  In (k_b m) [virtual_cfg; zip_cfg; vpk_cfg] /\\ clean_fs (k_fs m) = true /\\ okp (k_p m) /\\ k_store m = None.
+Theorem today_chain_walk_every_entry_spec : forall ms folder x,
+  Forall gen_kmember0 ms -> okp folder ->
+  In x (chain_walk_mode chain_dedup_mode chain_relmode chain_dedup_ops (map k_member ms) folder) ->
+  chain_spec (map k_spec ms) (fst x) = Some (snd x).
+Proof.
+  intros ms folder x Hms Hf Hin.
+  destruct (c19_chain_walk_every_entry_spec ExViaGet chain_dedup_ops ms folder x) as [A _];
+    [reflexivity|vm_compute; reflexivity| |exact Hf|exact Hin|exact A].
+  eapply Forall_impl; [|exact Hms]. intros m [Hb [Hfs [Hp Hs]]].
+  split; [split; [|split; [exact Hfs|rewrite Hs; exact I]]|split; [|exact Hp]];
+    destruct Hb as [<-|[<-|[<-|[]]]]; vm_compute; reflexivity.
+Qed.
+Print Assumptions today_chain_walk_every_entry_spec.
 '''
 
 INSTANCE_THEOREM_FORMS = '''Import ListNotations.
@@ -130,25 +148,6 @@ Proof.
     destruct Hc as [<-|[<-|[]]]; vm_compute; reflexivity.
 Qed.
 Print Assumptions today_chain_every_form_spec.
-(* ... and every entry today's walk_folder / iter lists is the specification's answer for the listed name *)
-Theorem today_chain_walk_every_entry_spec : forall c ms folder x,
-  In c [vpk_open_bin_content; vpk_open_str_content] -> Forall (gen_kmember c) ms -> Forall (fun m => okp (k_p m)) ms -> okp folder ->
-  In x (chain_walk_mode chain_dedup_mode chain_relmode chain_dedup_ops (map k_member ms) folder) ->
-  chain_spec (map k_spec ms) (fst x) = Some (snd x)
-  /\\ chain_exists chain_exists_mode (map k_xmember ms) (fst x) = true
-  /\\ chain_read ms (fst x) = Some (snd (snd x)).
-Proof.
-  intros c ms folder x Hc Hms Hp Hf Hin.
-  destruct (c19_chain_walk_every_entry_spec chain_exists_mode chain_dedup_ops ms folder x) as [A [_ [B C]]];
-    [vm_compute; reflexivity|vm_compute; reflexivity| |exact Hf|exact Hin|repeat split; assumption].
-  apply Forall_forall. intros m Hm.
-  destruct (proj1 (Forall_forall _ _) Hms m Hm) as [Hb [Hfs Hs]]. pose proof (proj1 (Forall_forall _ _) Hp m Hm) as Hpm.
-  split; [split; [|split; [exact Hfs|]]|split; [|exact Hpm]].
-  - destruct Hb as [<-|[<-|[<-|[]]]]; vm_compute; reflexivity.
-  - destruct Hs as [->|[limit [in_dir [_ ->]]]]; [exact I|]. destruct Hc as [<-|[<-|[]]]; vm_compute; reflexivity.
-  - destruct Hb as [<-|[<-|[<-|[]]]]; vm_compute; reflexivity.
-Qed.
-Print Assumptions today_chain_walk_every_entry_spec.
 (* today's FileInfo.read() and today's open_bin / open_str over it hand out the stored bytes wherever the VPK keeps them *)
 Theorem today_vpk_reader_whole : forall c before after limit in_dir data,
   In c [vpk_open_bin_content; vpk_open_str_content] ->
@@ -275,8 +274,11 @@ def folder_candidates(rng: random.Random, files) -> list[tuple[str, str]]:
 
 # ------------------------------------------------------------------------------------------------ building real backends
 class Built:
-    def __init__(self, root: str, files, which=BACKENDS, vpk_limit=1024, vpk_arch=0) -> None:
-        from srctools.filesys import VirtualFileSystem, ZipFileSystem, VPKFileSystem, RawFileSystem
+    def __init__(self, root: str, files, which=BACKENDS, vpk_limit=1024, vpk_arch=0, mod=None) -> None:
+        if mod is None:
+            import srctools.filesys as mod
+        VirtualFileSystem, ZipFileSystem, VPKFileSystem, RawFileSystem = (mod.VirtualFileSystem, mod.ZipFileSystem,
+                                                                          mod.VPKFileSystem, mod.RawFileSystem)
         from srctools.vpk import VPK
         self.dir = tempfile.mkdtemp(dir=root)
         self.files = files
@@ -825,6 +827,121 @@ def check_nonascii(root: str, files, rng: random.Random, stats=None) -> list[tup
     return out
 
 
+# ------------------------------------------------------------------------------------------------ the canonical form, executed
+def canonical_validation(ck: Ck, root: str) -> None:
+    """The translator matches on a canonical form of filesys.py (translate/c19_walk.py: canonical_module + normalise).
+    Its rewrite rules are meant to be equivalences of Python programs; here the rewritten module is *run*: every function
+    and method of filesys.py is replaced by its canonical form, the module is compiled and executed, and its filesystem
+    classes are compared with the real ones on file sets, queries, folders and chains (every public form).  A difference
+    means a rewrite rule changed behaviour - then nothing the translator says about the source can be trusted."""
+    import ast as _ast
+    import types
+    from harness.common import src_text
+    name = 'srctools._c19_canonical_filesys'
+    try:
+        tree = c19_walk.canonical_module(_ast.parse(src_text('filesys.py')))
+        tr = c19_walk.Tr(tree, 'filesys.py')
+        nfn = 0
+        for i, node in enumerate(tree.body):
+            if isinstance(node, _ast.FunctionDef):
+                tr.cls = None
+                tree.body[i] = c19_walk.normalise(tr, None, node)
+                nfn += 1
+            elif isinstance(node, _ast.ClassDef):
+                tr.cls = node
+                for j, m in enumerate(node.body):
+                    if isinstance(m, _ast.FunctionDef):
+                        node.body[j] = c19_walk.normalise(tr, node, m)
+                        nfn += 1
+        _ast.fix_missing_locations(tree)
+        mod = types.ModuleType(name)
+        mod.__package__ = 'srctools'
+        sys.modules[name] = mod
+        exec(compile(tree, '<canonical form of filesys.py>', 'exec'), mod.__dict__)
+    except Exception as e:      # noqa: BLE001
+        sys.modules.pop(name, None)
+        ck.obligation('translate:canonical-form-runs', False, f'the canonical form of filesys.py could not be built / executed: {type(e).__name__}: {e}')
+        ck.tie_broken.append('canonical form of filesys.py does not run')
+        return
+    ck.obligation('translate:canonical-form-runs', True, f'{nfn} functions of filesys.py rewritten to their canonical form, compiled and executed')
+    import srctools.filesys as real
+    diffs: list[str] = []
+    nobs = 0
+    rng = random.Random(ck.seed ^ 0xC19CA)
+    try:
+        for i in range(ck.budget(10, 60)):
+            files = CORPUS_SETS[i] if i < len(CORPUS_SETS) else gen_files(rng)
+            if not files:
+                continue
+            lim, arch = rng.choice([(1024, 0), (0, 0), (3, 1), (0, None), (3, None)])
+            a = Built(root, files, BACKENDS, vpk_limit=lim, vpk_arch=arch)
+            b = Built(root, files, BACKENDS, vpk_limit=lim, vpk_arch=arch, mod=mod)
+            try:
+                qs = []
+                for nm, _ in files[:4]:
+                    qs += rng.sample(spellings(rng, nm), 2) + [q for q, _ in rng.sample(path_spellings(rng, nm), 2)]
+                qs += ['nonexistent.txt', '', '.', files[0][0].split('/')[0]]
+                folders = [f for f, _ in folder_candidates(rng, files)][:10]
+                for kind in BACKENDS:
+                    for q in qs:
+                        ra = impl_lookup(a.fs[kind], q) + (impl_open_str(a.fs[kind], q),)
+                        rb = impl_lookup(b.fs[kind], q) + (impl_open_str(b.fs[kind], q),)
+                        nobs += 1
+                        if ra != rb:
+                            diffs.append(f'{kind}: query {q!r} over {[n for n, _ in files]}: real {ra!r}, canonical {rb!r}')
+                    for f in folders:
+                        wa, wb = impl_walk(a.fs[kind], f), impl_walk(b.fs[kind], f)
+                        if kind == 'raw' and not isinstance(wa, str) and not isinstance(wb, str):
+                            wa, wb = sorted(wa), sorted(wb)
+                        nobs += 1
+                        if wa != wb:
+                            diffs.append(f'{kind}: walk_folder({f!r}) over {[n for n, _ in files]}: real {wa!r}, canonical {wb!r}')
+                # a chain over the same members, built by each module's own FileSystemChain
+                dirs = sorted({'/'.join(nm.split('/')[:k]) for nm, _ in files for k in range(1, len(nm.split('/')))})
+                membs = [(rng.choice(BACKENDS[:3]), rng.choice([''] + dirs[:3] + [d + '/' for d in dirs[:1]] + ['./' + d for d in dirs[:1]]),
+                          rng.random() < 0.3) for _ in range(rng.choice([2, 3, 4]))]
+                ca, cb = real.FileSystemChain(), mod.FileSystemChain()
+                for kind, pfx, prio in membs:
+                    ca.add_sys(a.fs[kind], pfx, priority=prio)
+                    cb.add_sys(b.fs[kind], pfx, priority=prio)
+                cq = list(dict.fromkeys(qs + [nm.split('/', 1)[1] for nm, _ in files if '/' in nm]))
+                for q in cq:
+                    ra = impl_lookup(ca, q) + (impl_open_str(ca, q),)
+                    rb = impl_lookup(cb, q) + (impl_open_str(cb, q),)
+                    nobs += 1
+                    if ra != rb:
+                        diffs.append(f'chain {membs}: query {q!r}: real {ra!r}, canonical {rb!r}')
+                for f in ['', '.'] + dirs[:3]:
+                    for meth in ('walk_folder', 'walk_folder_repeat'):
+                        try:
+                            wa = [x.path for x in getattr(ca, meth)(f)]
+                        except Exception as e:      # noqa: BLE001
+                            wa = type(e).__name__
+                        try:
+                            wb = [x.path for x in getattr(cb, meth)(f)]
+                        except Exception as e:      # noqa: BLE001
+                            wb = type(e).__name__
+                        nobs += 1
+                        if wa != wb:
+                            diffs.append(f'chain {membs}: {meth}({f!r}): real {wa!r}, canonical {wb!r}')
+                la = [x.path for x in ca]
+                lb = [x.path for x in cb]
+                nobs += 1
+                if la != lb:
+                    diffs.append(f'chain {membs}: iter: real {la!r}, canonical {lb!r}')
+            finally:
+                a.close()
+                b.close()
+    finally:
+        sys.modules.pop(name, None)
+    ck.count('canonical_form_observations', nobs)
+    ck.obligation('translate:canonical-form-is-equivalent', not diffs,
+                  f'{nobs} observations (every lookup form and walk of the four backends and of chains) agree between filesys.py and its '
+                  f'canonical form as executed' if not diffs else f'{len(diffs)} differences, first: {diffs[0][:600]}')
+    if diffs:
+        ck.tie_broken.append('canonical form of filesys.py behaves differently from filesys.py')
+
+
 # ------------------------------------------------------------------------------------------------ oracle: file contents
 # 'return the same bytes' for every place a VPK can keep a file's data: the preload bytes inside the directory tree
 # (FileInfo.start_data), the block after the tree of the _dir / single file (VPK.footer_data, arch_index None), a numbered
@@ -1349,7 +1466,7 @@ def run(ck: Ck) -> None:
         from concurrent.futures import ThreadPoolExecutor
         pool = ThreadPoolExecutor(max_workers=3)
         fut_thm = pool.submit(ck.theorems, 'Props/C19.v')      # Print Assumptions of every theorem (its obligations are moved to the front below)
-        fut_compose = pool.submit(ck.coq_scratch, ''.join(f'Require Import {i}.\n' for i in IMPORTS + ['SV.SM.FsChainProofs', 'SV.SM.FsChainCompose', 'SV.Props.C19'])
+        fut_compose = pool.submit(ck.coq_scratch, ''.join(f'Require Import {i}.\n' for i in IMPORTS + ['SV.SM.FsChainProofs', 'SV.SM.FsChainCompose', 'SV.SM.FsChainFormsProofs', 'SV.SM.FsChainWhole', 'SV.Props.C19'])
                                   + INSTANCE_THEOREM, 'inst_compose', 300)
         fut_forms = pool.submit(ck.coq_scratch, ''.join(f'Require Import {i}.\n' for i in IMPORTS + ['SV.SM.FsChainProofs', 'SV.SM.FsChainCompose', 'SV.SM.FsChainFormsProofs', 'SV.SM.FsChainWhole', 'SV.SM.FsChainReadProofs', 'SV.Props.C19'])
                                 + INSTANCE_THEOREM_FORMS, 'inst_forms', 300)
@@ -1390,8 +1507,8 @@ def run(ck: Ck) -> None:
         # de-duplicates by skipping, lists prefix-relative names and every backend form is sound)
         rc, out = fut_compose.result()
         ck.obligation('instance-theorem:chain_walk_lookup_closed', rc == 0,
-                      'c19_chain_walk_lookup_closed applied to chain_walk_mode chain_dedup_mode chain_relmode chain_dedup_ops over '
-                      'members built from virtual_cfg / zip_cfg / vpk_cfg' + ('' if rc == 0 else ': ' + out[-400:]))
+                      'c19_chain_walk_lookup_closed and c19_chain_walk_every_entry_spec applied to chain_walk_mode chain_dedup_mode '
+                      'chain_relmode chain_dedup_ops over members built from virtual_cfg / zip_cfg / vpk_cfg' + ('' if rc == 0 else ': ' + out[-400:]))
         rc, out = fut_forms.result()
         ck.obligation('instance-theorem:chain_exists_and_vpk_bytes', rc == 0,
                       'c19_chain_exists_agrees_backends at chain_exists_mode, c19_vpk_open_same_bytes at vpk_open_bin_content / '
@@ -1402,6 +1519,8 @@ def run(ck: Ck) -> None:
         ck.extra['stage_seconds'] = {'translate_build': round(_tb - _ta, 1), 'instance_obligations': round(_td - _tc, 1),
                                      'instance_theorems_wait': round(t0 - _td, 1), 'corr_backends': round(t1 - t0, 1), 'corr_chain': round(t2 - t1, 1)}
     import time as _t
+    if ok_t:
+        t3 = _t.time(); canonical_validation(ck, root); ck.extra.setdefault('stage_seconds', {})['canonical_validation'] = round(_t.time() - t3, 1)
     t3 = _t.time(); search(ck, root); ck.extra.setdefault('stage_seconds', {})['search'] = round(_t.time() - t3, 1)
     if built:
         _te = time.time()
